@@ -23,18 +23,18 @@ use serde_json::{json, Value};
 use std::collections::HashMap;
 use std::sync::{Arc, Mutex, OnceLock};
 
-type F = ResidualModel;
+pub(crate) type F = ResidualModel;
 
-struct Sys {
-    name: &'static str,
-    func: Arc<F>,
-    tc: f64,
-    rhoc: f64,
-    binary_x: Option<f64>,
+pub(crate) struct Sys {
+    pub name: &'static str,
+    pub func: Arc<F>,
+    pub tc: f64,
+    pub rhoc: f64,
+    pub binary_x: Option<f64>,
 }
 
-struct Pool {
-    systems: Vec<Sys>,
+pub(crate) struct Pool {
+    pub systems: Vec<Sys>,
     memo: Mutex<HashMap<String, Option<RefObs>>>,
 }
 
@@ -46,7 +46,7 @@ struct RefObs {
     n: Vec<f64>,
 }
 
-fn pool() -> &'static Pool {
+pub(crate) fn pool() -> &'static Pool {
     static POOL: OnceLock<Pool> = OnceLock::new();
     POOL.get_or_init(|| with_fixed_entropy(|| {
         let mut systems = Vec::new();
@@ -165,7 +165,7 @@ pub struct Scenario {
     pub ops: Vec<Op>,
 }
 
-fn build_solver(chain: &[Stage]) -> DFTSolver {
+pub(crate) fn build_solver(chain: &[Stage]) -> DFTSolver {
     let mut s = DFTSolver::new(None);
     for st in chain {
         let tol = Some(10f64.powf(-st.tol_exp));
@@ -238,7 +238,7 @@ fn build(sc: &Scenario) -> Result<Obj, String> {
 /// Setting a system up (bulk phase equilibria, initial profiles) can panic inside feos: the
 /// functionals unwrap the result of their bulk Helmholtz energy (functional_contribution.rs:45),
 /// which fails for trial states beyond the packing limit. That is not a solve and not judged.
-fn guarded<T>(f: impl FnOnce() -> Result<T, String>) -> Result<T, String> {
+pub(crate) fn guarded<T>(f: impl FnOnce() -> Result<T, String>) -> Result<T, String> {
     match std::panic::catch_unwind(std::panic::AssertUnwindSafe(f)) {
         Ok(r) => r,
         Err(_) => Err(format!("panic: {}", take_last_panic().unwrap_or_default())),
@@ -692,7 +692,7 @@ fn execute(sc: &Scenario) -> RunOutcome {
 
 pub struct C18;
 
-fn gen_stage(rng: &mut Rng, last: bool) -> Stage {
+pub(crate) fn gen_stage(rng: &mut Rng, last: bool) -> Stage {
     let algo = rng.below(3) as u8;
     // interruption: small budgets end a stage unconverged (or the whole call with an error)
     let max_iter = match rng.below(6) {
@@ -713,15 +713,15 @@ fn gen_stage(rng: &mut Rng, last: bool) -> Stage {
         damping: match algo {
             0 => {
                 if rng.chance(0.5) {
-                    Some(*rng.pick(&[0.01, 0.05, 0.15]))
+                    Some(*rng.pick(&[0.01, 0.05, 0.15, 0.5, 1.0]))
                 } else {
                     None
                 }
             }
-            1 => Some(*rng.pick(&[0.05, 0.15, 0.3])),
+            1 => Some(*rng.pick(&[0.05, 0.15, 0.3, 1.0])),
             _ => None,
         },
-        mmax: *rng.pick(&[5usize, 20, 100]),
+        mmax: *rng.pick(&[3usize, 5, 20, 100]),
         gmres: *rng.pick(&[20usize, 200]),
     }
 }
@@ -895,7 +895,7 @@ pub fn debug_replay(path: &str) {
 /// Euler-Lagrange residual norm of a profile assembled outside `euler_lagrange_equation`:
 /// rho_projected = rho_b exp(-(dF/drho + V_ext - dF/drho_b)/m) * bonds, where the bulk functional
 /// derivative is taken from a uniform periodic profile at the bulk state.
-fn independent_residual<F: feos_dft::HelmholtzEnergyFunctional>(p: &feos_dft::DFTProfile<ndarray::Ix1, F>) -> Option<f64> {
+pub(crate) fn independent_residual<F: feos_dft::HelmholtzEnergyFunctional>(p: &feos_dft::DFTProfile<ndarray::Ix1, F>) -> Option<f64> {
     use feos_dft::{Axis, DFTProfile, Grid};
     let t = p.temperature.to_reduced();
     let rho = p.density.to_reduced();
